@@ -42,7 +42,7 @@ def programs(tier, rnd: random.Random):
 
 SPEC = semprop.Spec(
     prop="C06", programs=programs, oracles=("diff", "tmpdef"),
-    theorems=["C06_temporaries_written_before_read", "C06_stale_temporaries_are_irrelevant", "C06_refuted_hoisted", "C06_hoisted_is_leftover", "C06_refuted", "C06_positive_examples"],
+    theorems=["C06_temporaries_written_before_read", "C06_stale_temporaries_are_irrelevant", "C06_refuted_hoisted", "C06_hoisted_is_leftover", "C06_refuted", "C06_positive_examples", "C06_postfix_new_value_is_the_compilers"],
     note="0..4 hybrids (postfix ++/--, calls, statement-expressions) in initialisers, assignments, conditions, loop steps, call "
          "arguments, ?: arms and as expression statements",
 )
